@@ -1,0 +1,45 @@
+//go:build verif
+
+package mutagen
+
+// Contracts for the parsing of a Mutagen-style ignore pattern into its flags
+// (property C14: "Patterns without a slash match the final component
+// anywhere, leading-slash or slash-containing patterns are anchored at the
+// root, trailing-slash patterns match only directories"). Comment-only file,
+// read by govc.
+//
+// pbody(p): the pattern without its negation mark. cpts(b): b cleaned by
+// path.Clean (pclean, trusted and uninterpreted) with a trailing slash kept.
+//@ spec pbody(p) string = p[0] == '!' ? p[1:len(p)] : p
+//@ spec cpts(b) string = (len(b) > 1 && b[len(b)-1] == '/') ? pclean(b) + "/" : pclean(b)
+//@ pred endsInSlash(s) = len(s) >= 1 && s[len(s)-1] == '/'
+//@ pred onlySlashes(s) = len(s) >= 1 && forall i in 0..len(s) :: s[i] == '/'
+
+// (inline: callers evaluate the body, so that the trusted facts about
+// path.Clean are available for the very string cleaned)
+//@ func cleanPreservingTrailingSlash
+//@   inline
+//@   ensures[def] result == cpts(path)
+//@   modifies
+
+// In terms of the cleaned pattern c = cpts(pbody(pattern)):
+//   [root]     c == "/" and c == "//" are rejected, as are "" and "!";
+//   [dironly]  directoryOnly iff c ends in '/';
+//   [stored]   the stored glob is c without its leading '/' (if any) and
+//              without its trailing '/' (if any), and is not empty;
+//   [leaf]     matchLeaf iff c does not start with '/' and the stored glob
+//              contains no '/' (with [stored]: no '/' in c except a last one).
+// In terms of the pattern as written (with the documented behaviour of
+// path.Clean as trusted facts):
+//   [trailing] directoryOnly iff the pattern (without '!') has more than one
+//              byte and ends in '/';
+//   [slashes]  a pattern consisting of slashes only is rejected.
+//@ func newIgnorePattern
+//@   ensures[bang] len(pattern) == 1 && pattern[0] == '!' ==> result1 != nil
+//@   ensures[root] len(pattern) >= 1 && len(pbody(pattern)) >= 1 && len(cpts(pbody(pattern))) == 1 && cpts(pbody(pattern))[0] == '/' ==> result1 != nil
+//@   ensures[root] len(pattern) >= 1 && len(pbody(pattern)) >= 1 && len(cpts(pbody(pattern))) == 2 && cpts(pbody(pattern))[0] == '/' && cpts(pbody(pattern))[1] == '/' ==> result1 != nil
+//@   ensures[dironly] result1 == nil ==> (result0.directoryOnly <==> endsInSlash(cpts(pbody(pattern))))
+//@   ensures[stored] result1 == nil ==> len(result0.pattern) >= 1 && result0.pattern == cpts(pbody(pattern))[(cpts(pbody(pattern))[0] == '/' ? 1 : 0):(len(cpts(pbody(pattern))) - (endsInSlash(cpts(pbody(pattern))) ? 1 : 0))]
+//@   ensures[leaf] result1 == nil ==> (result0.matchLeaf <==> (cpts(pbody(pattern))[0] != '/' && forall i in 0..len(result0.pattern) :: result0.pattern[i] != '/'))
+//@   ensures[trailing] result1 == nil ==> (result0.directoryOnly <==> (len(pbody(pattern)) > 1 && endsInSlash(pbody(pattern))))
+//@   ensures[slashes] len(pattern) >= 1 && onlySlashes(pbody(pattern)) ==> result1 != nil
